@@ -271,6 +271,10 @@ class MarginalRateTaxScale(RateTaxScaleLike):
             i = 0
             previous_threshold = self.thresholds[0]
             previous_rate = self.rates[0]
+            rate = previous_rate
+
+            # The average rate is zero up to the first threshold
+            average_tax_scale.add_bracket(previous_threshold, 0)
 
             for threshold, rate in itertools.islice(
                 zip(self.thresholds, self.rates),
